@@ -270,6 +270,245 @@ class TrGM:
         return "GM." + name
 
 
+# ------------------------------------------------------------------ normalisation of equivalent surface shapes
+# Every rule maps a shape onto the ONE shape today's source has, so that a behaviour-preserving rewrite of the source
+# leaves `Gen/AddImpl.lean` byte-identical.  Each rule is semantics-preserving for ALL inputs (argument given at the
+# rule); whatever is not recognised afterwards is still refused (gap).  The rules never look at the vocabulary.
+CANONICAL_LOCALS = {      # locals in the order of their first binding in today's source
+    "add": ["targets", "all_members", "member", "e", "err_string", "t"],
+    "__add": ["description"],
+    "_get_members": ["current_class", "c"],
+}
+
+
+def _names(node, ctx=None):
+    return [n.id for n in ast.walk(node) if isinstance(n, ast.Name) and (ctx is None or isinstance(n.ctx, ctx))]
+
+
+def _is_empty_list(e):
+    return isinstance(e, ast.List) and not e.elts
+
+
+class _Normaliser:
+    def __init__(self, fn):
+        self.fn = fn
+        self.used = set(_names(fn)) | {a.arg for a in fn.args.posonlyargs + fn.args.args + fn.args.kwonlyargs}
+        self.k = 0
+        # locals that only ever hold a list: every binding is a list display / list comprehension
+        stores = {}
+        for n in ast.walk(fn):
+            if isinstance(n, ast.Assign) and len(n.targets) == 1 and isinstance(n.targets[0], ast.Name):
+                stores.setdefault(n.targets[0].id, []).append(isinstance(n.value, (ast.List, ast.ListComp)))
+            elif isinstance(n, (ast.AugAssign, ast.AnnAssign)) and isinstance(n.target, ast.Name):
+                stores.setdefault(n.target.id, []).append(False)
+            elif isinstance(n, (ast.For, ast.comprehension)) :
+                for x in _names(n.target, ast.Store):
+                    stores.setdefault(x, []).append(False)
+            elif isinstance(n, (ast.With, ast.ExceptHandler, ast.Import, ast.ImportFrom, ast.NamedExpr, ast.Global, ast.Nonlocal)):
+                for x in ([n.name] if isinstance(n, ast.ExceptHandler) and n.name else []):
+                    stores.setdefault(x, []).append(False)
+        self.list_locals = {k for k, v in stores.items() if v and all(v)} - \
+            {a.arg for a in fn.args.posonlyargs + fn.args.args + fn.args.kwonlyargs}
+
+    def fresh(self):
+        while True:
+            self.k += 1
+            n = "_tmp%d" % self.k
+            if n not in self.used:
+                self.used.add(n)
+                return n
+
+    # -- expressions
+    def expr(self, e):
+        norm = self
+
+        class T(ast.NodeTransformer):
+            def visit_UnaryOp(self, node):
+                self.generic_visit(node)
+                # `not L` = `len(L) == 0` for a local L that only ever holds a list (truth value of a list is
+                # `len(L) != 0`; a list cannot override it)
+                if isinstance(node.op, ast.Not) and isinstance(node.operand, ast.Name) and node.operand.id in norm.list_locals:
+                    return ast.Compare(left=ast.Call(func=ast.Name(id="len", ctx=ast.Load()), args=[node.operand], keywords=[]),
+                                       ops=[ast.Eq()], comparators=[ast.Constant(value=0)])
+                # `not a in b` = `a not in b`, `not a == b` = `a != b` (definition of the operators on the result of
+                # ONE comparison: `not in` is defined as the negation of `in`; `!=` is NOT `not ==` in general, so only `in`)
+                if isinstance(node.op, ast.Not) and isinstance(node.operand, ast.Compare) and len(node.operand.ops) == 1 \
+                        and isinstance(node.operand.ops[0], ast.In):
+                    return ast.Compare(left=node.operand.left, ops=[ast.NotIn()], comparators=node.operand.comparators)
+                return node
+        return ast.fix_missing_locations(T().visit(e))
+
+    # -- statement lists
+    def stmts(self, body):
+        out = []
+        for st in _strip_doc(body):
+            out += self.stmt(st)
+        # R-bubble: `X = []` moves up past directly preceding simple assignments `Y = E` (Y a name ≠ X, X not in E):
+        # binding a fresh empty list to a local cannot raise and cannot be observed by E, and if E raises the frame is
+        # gone; so the two orders are indistinguishable.  (Stops at any other statement: today's order is kept.)
+        i = 0
+        while i < len(out):
+            st = out[i]
+            if isinstance(st, ast.Assign) and len(st.targets) == 1 and isinstance(st.targets[0], ast.Name) \
+                    and _is_empty_list(st.value):
+                x, j = st.targets[0].id, i
+                while j > 0:
+                    pv = out[j - 1]
+                    if isinstance(pv, ast.Assign) and len(pv.targets) == 1 and isinstance(pv.targets[0], ast.Name) \
+                            and pv.targets[0].id != x and x not in _names(pv) and not _is_empty_list(pv.value):
+                        out[j - 1], out[j] = out[j], out[j - 1]
+                        j -= 1
+                    else:
+                        break
+            i += 1
+        # R-inline: `N = Exception(<name>)` directly followed by `raise N`, N used nowhere else  =  `raise Exception(<name>)`
+        # (same evaluation order; the only difference is a local that nobody reads)
+        i = 0
+        while i + 1 < len(out):
+            a, b = out[i], out[i + 1]
+            if (isinstance(a, ast.Assign) and len(a.targets) == 1 and isinstance(a.targets[0], ast.Name)
+                    and isinstance(a.value, ast.Call) and ast.unparse(a.value.func) == "Exception"
+                    and len(a.value.args) == 1 and isinstance(a.value.args[0], ast.Name) and not a.value.keywords
+                    and isinstance(b, ast.Raise) and b.cause is None and isinstance(b.exc, ast.Name)
+                    and b.exc.id == a.targets[0].id and _names(self.fn).count(b.exc.id) == 2):
+                out[i:i + 2] = [ast.copy_location(ast.Raise(exc=a.value, cause=None), b)]
+            i += 1
+        return out
+
+    def stmt(self, st):
+        """one statement -> list of normalised statements"""
+        if isinstance(st, ast.If):
+            st = ast.copy_location(ast.If(test=self.expr(st.test), body=self.stmts(st.body), orelse=self.stmts(st.orelse)), st)
+            return [st]
+        if isinstance(st, ast.For):
+            pre = []
+            it = st.iter
+            # R-hoist: `for v in <call>` = `tmp = <call>; for v in tmp` (the iterable is evaluated once, before the
+            # first iteration, either way)
+            if isinstance(it, ast.Call):
+                tmp = self.fresh()
+                pre = [ast.copy_location(ast.Assign(targets=[ast.Name(id=tmp, ctx=ast.Store())], value=it), st)]
+                it = ast.Name(id=tmp, ctx=ast.Load())
+            new = ast.copy_location(ast.For(target=st.target, iter=it, body=self.stmts(st.body),
+                                            orelse=self.stmts(st.orelse), type_comment=None), st)
+            return pre + [new]
+        if isinstance(st, ast.Try):
+            handlers = []
+            for h in st.handlers:
+                # R-split: `except (A, B): body` = `except A: body` / `except B: body` (the first matching clause runs;
+                # both clauses run the same body)
+                if isinstance(h.type, ast.Tuple) and h.name is None:
+                    for t in h.type.elts:
+                        handlers.append(ast.copy_location(ast.ExceptHandler(type=t, name=None, body=self.stmts(h.body)), h))
+                else:
+                    handlers.append(ast.copy_location(ast.ExceptHandler(type=h.type, name=h.name, body=self.stmts(h.body)), h))
+            return [ast.copy_location(ast.Try(body=self.stmts(st.body), handlers=handlers, orelse=self.stmts(st.orelse),
+                                              finalbody=self.stmts(st.finalbody)), st)]
+        if isinstance(st, ast.AnnAssign) and st.value is not None and st.simple and isinstance(st.target, ast.Name):
+            # `x: T = e` = `x = e` (annotations of locals are not evaluated)
+            st = ast.copy_location(ast.Assign(targets=[st.target], value=st.value), st)
+        if isinstance(st, ast.Assign) and len(st.targets) == 1 and isinstance(st.targets[0], ast.Name) \
+                and isinstance(st.value, ast.ListComp) and len(st.value.generators) == 1:
+            g = st.value.generators[0]
+            x = st.targets[0].id
+            # R-comprehension: `X = [v for v in IT if C]` = `X = []; for v in IT: if C: X.append(v)` when the element
+            # is the loop variable itself, X occurs neither in IT nor in C, and v is not read after the loop (the
+            # comprehension does not leak v; the loop does)
+            if (not g.is_async and isinstance(g.target, ast.Name) and isinstance(st.value.elt, ast.Name)
+                    and st.value.elt.id == g.target.id and x not in _names(g.iter) and all(x not in _names(c) for c in g.ifs)
+                    and x != g.target.id and self._not_read_outside(g.target.id, st)):
+                app = ast.Expr(value=ast.Call(func=ast.Attribute(value=ast.Name(id=x, ctx=ast.Load()), attr="append", ctx=ast.Load()),
+                                              args=[ast.Name(id=g.target.id, ctx=ast.Load())], keywords=[]))
+                inner = [app]
+                for c in reversed(g.ifs):
+                    inner = [ast.If(test=c, body=inner, orelse=[])]
+                loop = ast.For(target=ast.Name(id=g.target.id, ctx=ast.Store()), iter=g.iter, body=inner, orelse=[], type_comment=None)
+                init = ast.Assign(targets=[ast.Name(id=x, ctx=ast.Store())], value=ast.List(elts=[], ctx=ast.Load()))
+                res = []
+                for n in (init, loop):
+                    ast.copy_location(n, st)
+                    ast.fix_missing_locations(n)
+                    res += self.stmt(n) if n is loop else [n]
+                return res
+        if isinstance(st, ast.Raise) and st.cause is None and isinstance(st.exc, ast.Call) \
+                and ast.unparse(st.exc.func) == "Exception" and len(st.exc.args) == 1 \
+                and not isinstance(st.exc.args[0], ast.Name) and not st.exc.keywords:
+            # R-split-raise: `raise Exception(<message built in place>)` = `tmp = Exception(…); raise tmp`
+            tmp = self.fresh()
+            a = ast.copy_location(ast.Assign(targets=[ast.Name(id=tmp, ctx=ast.Store())], value=self.expr(st.exc)), st)
+            r = ast.copy_location(ast.Raise(exc=ast.Name(id=tmp, ctx=ast.Load()), cause=None), st)
+            return [ast.fix_missing_locations(a), ast.fix_missing_locations(r)]
+        if isinstance(st, (ast.Assign, ast.AugAssign, ast.Expr, ast.Return, ast.Raise)):
+            return [self.expr(st)]
+        return [st]
+
+    def _not_read_outside(self, var, comp_stmt):
+        inside = sum(1 for n in ast.walk(comp_stmt) if isinstance(n, ast.Name) and n.id == var)
+        return _names(self.fn).count(var) == inside
+
+    # -- alpha renaming
+    def rename(self, body, canonical):
+        """consistent renaming of the function's LOCAL variables (bound by assignment / for / except-as, not parameters,
+        not declared global/nonlocal) to the canonical names, by order of first binding.  A bijective renaming of
+        locals that captures no other name is semantics-preserving; if the orders do not correspond the statements
+        simply will not match the vocabulary afterwards (gap)."""
+        params = {a.arg for a in self.fn.args.posonlyargs + self.fn.args.args + self.fn.args.kwonlyargs}
+        if self.fn.args.vararg:
+            params.add(self.fn.args.vararg.arg)
+        if self.fn.args.kwarg:
+            params.add(self.fn.args.kwarg.arg)
+        order, declared = [], set()
+        mod = ast.Module(body=body, type_ignores=[])
+        for n in ast.walk(mod):
+            if isinstance(n, (ast.Global, ast.Nonlocal)):
+                declared |= set(n.names)
+
+        def visit(node):        # source order
+            for ch in ast.iter_child_nodes(node):
+                if isinstance(ch, (ast.FunctionDef, ast.Lambda, ast.ClassDef, ast.ListComp, ast.SetComp, ast.DictComp, ast.GeneratorExp)):
+                    continue
+                if isinstance(ch, ast.Assign):           # value first (evaluation order), then targets
+                    visit(ch.value)
+                    for t in ch.targets:
+                        visit_store(t)
+                    continue
+                visit_store(ch) if isinstance(ch, ast.Name) else visit(ch)
+
+        def visit_store(node):
+            if isinstance(node, ast.Name):
+                if isinstance(node.ctx, ast.Store) and node.id not in params and node.id not in declared and node.id not in order:
+                    order.append(node.id)
+            else:
+                visit(node)
+        visit(mod)
+        imported = {a.asname or a.name.split(".")[0] for n in ast.walk(mod) if isinstance(n, (ast.Import, ast.ImportFrom)) for a in n.names}
+        order = [x for x in order if x not in imported]
+        if len(order) != len(canonical):
+            return body
+        mapping = dict(zip(order, canonical))
+        if all(k == v for k, v in mapping.items()):
+            return body
+        free = set(_names(mod)) - set(order)
+        if any(v in free or v in params for k, v in mapping.items() if k != v):
+            return body                                  # would capture another name: leave as is (-> gap)
+
+        class R(ast.NodeTransformer):
+            def visit_Name(self, node):
+                if node.id in mapping:
+                    return ast.copy_location(ast.Name(id=mapping[node.id], ctx=node.ctx), node)
+                return node
+        return [R().visit(st) for st in body]
+
+
+def normalise(fn):
+    """FunctionDef -> normalised statement list (the input tree is not modified)"""
+    fn = ast.parse(ast.unparse(fn)).body[0]
+    nz = _Normaliser(fn)
+    body = nz.stmts(fn.body)
+    body = nz.rename(body, CANONICAL_LOCALS.get(fn.name, []))
+    return [ast.fix_missing_locations(st) for st in body]
+
+
 def check_signature(fn, gaps, label):
     want = SIGNATURES[fn.name]
     a = fn.args
@@ -386,7 +625,7 @@ def translate_repo(repo):
             continue
         tr = Tr("generatedssupersuper.py: GeneratedsSuperSuper.%s" % name)
         params = check_signature(fn, gaps, tr.label)
-        body = tr.block(fn.body, 2)
+        body = tr.block(normalise(fn), 2)
         gaps += tr.gaps
         if name == "__add":
             used = set(tr.used)
@@ -400,7 +639,7 @@ def translate_repo(repo):
     else:
         tr = TrGM("generatedssupersuper.py: GeneratedsSuperSuper._get_members")
         params = check_signature(fn, gaps, tr.label)
-        body = tr.block(fn.body, 2)
+        body = tr.block(normalise(fn), 2)
         gaps += tr.gaps
         chunks.append("/-- parameters of `GeneratedsSuperSuper._get_members` (a classmethod) -/\n"
                       "def getMembersParams : List String := [%s]\n" % ", ".join(lean_str(p) for p in params))
